@@ -121,9 +121,11 @@ class OSet(collections.abc.MutableSet):
     def __iter__(self):
         # the owning world may ask for another iteration order (set_order = "rev"): library code that iterates a set of
         # id-hashed objects may see them in any order, scenarios explore insertion order and its reverse
+        # like the builtin set it stands in for, iteration is over the live container: adding or removing an element while
+        # iterating raises RuntimeError("... changed size during iteration") - library code that relies on a copy must make one
         if getattr(CTX.world, "set_order", "ins") == "rev":
-            return iter(list(self._d)[::-1])
-        return iter(list(self._d))
+            return reversed(self._d)
+        return iter(self._d)
 
     def __len__(self):
         return len(self._d)
